@@ -50,3 +50,19 @@ Theorem C10_insert_then_delete_restores_the_printed_tree :
       /\ erase (r_root r2) = erase (r_root (run b ops)).
 Proof. exact reach_roundtrip_display. Qed.
 Print Assumptions C10_insert_then_delete_restores_the_printed_tree.
+
+(* ---- the order of steps in Router::insert and Router::delete, REGENERATED from src/router.rs on this run (Gen/Shapes.v):
+        every validation (parse, unknown constraint, conflicts / mismatch, not found) returns before the first mutation;
+        conflicts are sorted, then deduplicated; optimize runs after the mutation loop; a delete that removed nothing
+        reports NotFound before optimize - the order Model/Router.v rinsert / rdelete follow ---- *)
+From Coq Require Import String.
+From WF Require Import Gen.Shapes Proofs.ShapesP.
+Theorem C10_validation_precedes_mutation :
+  bl_eqb gen_insert_steps
+    ["parse"; "loop"; "loop"; "return"; "unknown-constraint"; "loop"; "find"; "push"; "if-conflicts"; "sort"; "dedup";
+     "return"; "conflict"; "loop"; "insert"; "insert"; "optimize"; "ok"]%string = true
+  /\ bl_eqb gen_delete_steps
+    ["parse"; "loop"; "find"; "continue"; "continue"; "return"; "mismatch"; "loop"; "find"; "return"; "not-found";
+     "loop"; "delete"; "return"; "not-found"; "optimize"; "ok"]%string = true.
+Proof. exact router_steps_shape. Qed.
+Print Assumptions C10_validation_precedes_mutation.
